@@ -12,6 +12,8 @@ class Adapter:
     name = None        # rl4co env name
     module = None      # TLA+ module in spec/env
     has_checker = True
+    has_truth = True   # the module defines the Truth interface (Actions/PrefixOK/Complete/Pointless)
+    solo_invariants = ("FamilyOK", "C01", "C02a", "C02c", "C03", "PadStays", "Emit")
     properties = ("C01", "C02", "C03", "C04", "C05", "C06")
     pad_steps = 2      # 0 for fixed-length envs (all rows of a batch finish together)
     exact = True       # exact embedding: rewards are integers in units 1/scale
@@ -31,6 +33,10 @@ class Adapter:
 
     def scale(self, inst):
         return inst["grid"]
+
+    def eps(self, inst):
+        """reward tolerance in integer units (0 under exact embeddings)"""
+        return 0
 
     def step_cap(self, inst):
         return 2 * inst["N"] + 4
@@ -88,6 +94,16 @@ class Adapter:
         return cands
 
     pad_action = 0
+
+    def project(self, td, r, inst):
+        """small abstract state of row r (compared with the model by ConfState / StepOK)"""
+        return {}
+
+    def final(self, td, r, inst):
+        """final tensors the problem definition needs (schedules ...), row r"""
+        return {}
+
+    monitor_props = {"Step": "C08", "Final": "C07"}
 
     # ---- behaviour -------------------------------------------------------
     def pad_choice(self, mask):
